@@ -18,6 +18,8 @@ import PyCraft.Drive.Writers
 import PyCraft.Drive.Packets
 import PyCraft.Drive.Lifecycle
 import PyCraft.Drive.Layout
+import PyCraft.Drive.C04Codec
+import PyCraft.Drive.C03Nominal
 /-!
 Line-protocol driver over the executable definitions of the models.  One request per line, tokens
 separated by single spaces, byte strings hex-encoded (`-` = empty).  One canonical reply per line.
@@ -25,7 +27,7 @@ Anything unparsable yields `bad-op` (never a default value).
 -/
 open PyCraft PyCraft.Drive
 
-def handlers : List (List String → Option String) := [varint, mchash, position, auth, cfb8, dispatch, negotiate, Drive.frame, trackers, login, play, versions, writers, packets, lifecycle, Drive.layout, Drive.wireReal, Drive.loginwire, Drive.hswire, Drive.playwire, Drive.sessionwire]
+def handlers : List (List String → Option String) := [varint, mchash, position, auth, cfb8, dispatch, negotiate, Drive.frame, trackers, login, play, versions, writers, packets, lifecycle, Drive.layout, Drive.wireReal, Drive.loginwire, Drive.hswire, Drive.playwire, Drive.sessionwire, Drive.c03nominal, Drive.c04codec]
 
 def handle (toks : List String) : String :=
   match handlers.findSome? (· toks) with
